@@ -32,7 +32,11 @@ type vdSubject struct {
 	// (compressed wrapper message / record batch with correct length and CRC). nil = identity.
 	wrap func(inner []byte) []byte
 	// run is the REAL entry point; it returns the digests of the records that surfaced
-	run     func(buf []byte) ([]string, error)
+	run func(buf []byte) ([]string, error)
+	// runAt decodes with another protocol version than the bytes were written in (what a
+	// client does when the broker answers in a version the client did not ask for)
+	runAt   func(buf []byte, ver int16) ([]string, error)
+	vers    []int16 // the versions with a distinct layout for this type
 	hasRecs bool
 	comp    bool // a compressed payload is involved (allocation clause allows for inflation)
 }
@@ -135,7 +139,7 @@ func (f *vdFiller) fill(v reflect.Value, depth int) {
 	case reflect.String:
 		v.SetString(fmt.Sprintf("s%d", f.next()))
 	case reflect.Ptr:
-		if depth > 7 {
+		if depth > 12 {
 			return
 		}
 		e := t.Elem()
@@ -146,7 +150,7 @@ func (f *vdFiller) fill(v reflect.Value, depth int) {
 		f.fill(nv.Elem(), depth+1)
 		v.Set(nv)
 	case reflect.Slice:
-		if depth > 7 {
+		if depth > 12 {
 			return
 		}
 		if t.Elem().Kind() == reflect.Uint8 {
@@ -160,7 +164,7 @@ func (f *vdFiller) fill(v reflect.Value, depth int) {
 		}
 		v.Set(s)
 	case reflect.Map:
-		if depth > 7 {
+		if depth > 12 {
 			return
 		}
 		m := reflect.MakeMap(t)
@@ -218,6 +222,7 @@ func vdResponseSubjects(skips *[]vdSkip) []*vdSubject {
 		ctor := ctor
 		name := vdTypeName(ctor())
 		seen := map[string]bool{}
+		first := len(out)
 		for ver := int16(0); ver <= vdMaxProbeVersion; ver++ {
 			ver := ver
 			val := ctor()
@@ -258,7 +263,17 @@ func vdResponseSubjects(skips *[]vdSkip) []*vdSubject {
 				run: func(b []byte) ([]string, error) {
 					return nil, versionedDecode(b, ctor().(versionedDecoder), ver)
 				},
+				runAt: func(b []byte, v int16) ([]string, error) {
+					return nil, versionedDecode(b, ctor().(versionedDecoder), v)
+				},
 			})
+		}
+		var vers []int16
+		for _, s := range out[first:] {
+			vers = append(vers, s.ver)
+		}
+		for _, s := range out[first:] {
+			s.vers = vers
 		}
 	}
 	return out
@@ -451,14 +466,11 @@ func vdTestMsgSet(version int8, codec CompressionCodec) *MessageSet {
 // vdWrapLegacy: inner message-set bytes -> compressed wrapper message inside a valid outer set
 func vdWrapLegacy(version int8, codec CompressionCodec) func([]byte) []byte {
 	return func(inner []byte) []byte {
-		payload, err := compress(codec, CompressionLevelDefault, inner)
-		if err != nil {
-			panic(err)
+		if inner == nil {
+			inner = []byte{}
 		}
-		w := &Message{Version: version, Codec: codec, CompressionLevel: CompressionLevelDefault, compressedCache: payload}
-		if payload == nil {
-			w.compressedCache = []byte{}
-		}
+		// Message.encode compresses Value itself (and caches the result between its two passes)
+		w := &Message{Version: version, Codec: codec, CompressionLevel: CompressionLevelDefault, Value: inner}
 		if version >= 1 {
 			w.Timestamp = time.Unix(1600000002, 0).UTC()
 		}
@@ -578,6 +590,14 @@ func vdFetchSubjects() []*vdSubject {
 				}
 				return vdFetchDigests(x), nil
 			},
+			runAt: func(b []byte, v int16) ([]string, error) {
+				x := &FetchResponse{}
+				if err := versionedDecode(b, x, v); err != nil {
+					return nil, err
+				}
+				return vdFetchDigests(x), nil
+			},
+			vers:    []int16{0, 1, 3, 4, 5, 7, 11},
 			hasRecs: true, comp: comp,
 		})
 	}
